@@ -193,13 +193,78 @@ class C05(vlib.HistoryProp):
 HP = C05()
 
 
+def branch_coverage(cases):
+    """what the generated histories exercise, measured on the model's traces"""
+    drv = vlib.ocaml_driver("C05")
+    cov = {"calls": 0, "nolabel": 0, "sync_value": 0, "sync_no_value": 0, "pending_after_call": 0,
+           "delivered_later": 0, "delivered_to_2plus_records_at_once": 0, "emptied_later": 0,
+           "pending_at_end_thread_gone": 0, "record_ops_on_pending": 0, "missing_args_nil": 0, "extra_args_ignored": 0,
+           "max_args": 0, "max_params": 0, "resets": 0}
+    for i in range(0, len(cases), 2000):
+        chunk = cases[i:i + 2000]
+        outs, _ = vlib.run_resilient(drv, ["model"], chunk, timeout=600)
+        for c in chunk:
+            lines = [l[2:] for l in outs.get(c.id, []) if l.startswith("m ")]
+            prev = {}
+            for op, l in zip(c.ops, lines):
+                parts = l.split(" | ")
+                if len(parts) < 3:
+                    continue
+                recs = {}
+                for r in parts[1].split():
+                    if "=" in r:
+                        rid, toks = r.split("=", 1)
+                        recs[rid] = toks.split(",")
+                w = op.split()
+                if w[0] == "C":
+                    cov["calls"] += 1
+                    nargs = 0 if w[4] == "-" else len(w[4].split(","))
+                    cov["max_args"] = max(cov["max_args"], nargs)
+                    cov["max_params"] = max(cov["max_params"], int(w[2]))
+                    if parts[0] == "nolabel":
+                        cov["nolabel"] += 1
+                    else:
+                        if int(w[2]) > nargs:
+                            cov["missing_args_nil"] += 1
+                        if int(w[2]) < nargs:
+                            cov["extra_args_ignored"] += 1
+                        new = [k for k in recs if k not in prev]
+                        last = recs[new[0]] if new else []
+                        if len(last) == nargs or last == ["-"]:
+                            cov["sync_no_value"] += 1
+                        elif last[-1] == "p":
+                            cov["pending_after_call"] += 1
+                        else:
+                            cov["sync_value"] += 1
+                elif w[0] in "YVMDSU" and any(prev.get("r" + x, [""])[-1] == "p" for x in w[1:]):
+                    cov["record_ops_on_pending"] += 1
+                elif w[0] == "Z":
+                    cov["resets"] += 1
+                got = [k for k in recs if k in prev and prev[k][-1] == "p" and recs[k][-1] != "p"]
+                if w[0] in ("X", "C") and got:
+                    vals = [k for k in got if recs[k][-1] != "n"]
+                    cov["delivered_later"] += 1 if vals else 0
+                    cov["emptied_later"] += 1 if len(vals) < len(got) else 0
+                    if len(vals) >= 2:
+                        cov["delivered_to_2plus_records_at_once"] += 1
+                prev = recs
+            if lines and " th=0" in lines[-1] and any(v[-1] == "p" for v in prev.values()):
+                cov["pending_at_end_thread_gone"] += 1
+    return cov
+
+
 def check(res, tier, seed):
     res.cov["rule"] += ("C05: corpus; every argument list of length 0..3 over 6 value kinds x every parameter count 0..3 x 4 completion schedules "
                         "(sync, timed waits, pause+resume by a helper thread, killed) with copies/relocations of the pending record and a missing-label call; "
                         "every sequence of <= 3 (thorough: 4) record operations (copy, relocate, move, destroy, copy-/move-assign of result cells) on two pending calls; "
                         "seeded random histories (argument/parameter lists to length 8, 9 value kinds, all schedules, record operations, frames, Reset); "
                         "non-trivial = a record showed `pending` and later the delivered value. ")
-    vlib.history_check(res, HP, tier, seed)
+    pst = vlib.history_check(res, HP, tier, seed)
+    try:
+        res.cov["c05_exercised"] = branch_coverage(HP.gen(tier, seed))
+    except Exception as e:                      # coverage is informative only
+        res.cov["c05_exercised"] = {"error": str(e)[:300]}
+    return pst
 
 
 def replay(path):
